@@ -11,7 +11,8 @@ Import ListNotations.
 Definition safe_char (c : ascii) : bool :=
   let n := nat_of_ascii c in
   (Nat.leb 48 n && Nat.leb n 57) || (Nat.leb 65 n && Nat.leb n 90) || (Nat.leb 97 n && Nat.leb n 122)
-  || existsb (Nat.eqb n) [32; 95; 58; 61; 60; 62; 39; 44; 45; 64; 47; 59; 33; 35; 37; 38; 126].
+  || existsb (Nat.eqb n) [32; 95; 58; 61; 60; 62; 39; 44; 45; 64; 47; 59; 33; 35; 37; 38; 126]
+  || Nat.leb 128 n.   (* the UTF-8 bytes of non-ASCII characters: literals for `re`; the generators emit whole characters *)
 Definition split_dollar (r : pystr) : pystr * bool :=
   match rev r with
   | "$"%char :: b => (rev b, true)
